@@ -27,6 +27,7 @@ def run(prog, run):
     r4(prog, run)
     r5(prog, run)
     r6(prog, run)
+    r7(prog, run)
 
 
 def _find_roles(prog, hs):
@@ -562,3 +563,27 @@ def _failures_end_exchange(prog):
             if 'disc' in q and 'end' not in q[:q.index('disc')]:
                 return False
     return True
+
+
+# --------------------------------------------------------------------------- R7: the configured checker is the one that is asked
+def r7(prog, run):
+    rid = run.rule('C16.R7', 'every call the server makes on its password checker is dispatched virtually: the decision is the configured checker\'s (a reimplemented checkPassword() '
+                             'that refuses suspended or banned accounts), not the base class\'s', floor=3)
+    n = 0
+    for f in prog.fns.values():
+        if f.entry is None or not f.file.endswith('QXmppIncomingClient.cpp'):
+            continue
+        for i, c in f.calls():
+            s_ = f.sym(c) or {}
+            if s_.get('record') != 'QXmppPasswordChecker' or c.get('obj') is None:
+                continue
+            n += 1
+            run.instance(rid)
+            if s_.get('virtual'):
+                run.ok(rid, f.loc(i), '%s() is virtual' % s_['name'], nontrivial=False)
+            else:
+                run.violation(rid, 'QXmppPasswordChecker::%s#not-virtual' % s_['name'], f.loc(i),
+                              'the server calls QXmppPasswordChecker::%s(), which is not virtual: a checker that reimplements it is bypassed and the base implementation decides who '
+                              'is authenticated' % s_['name'])
+    if n < 3:
+        raise AnalysisBroken('C16.R7: calls on the password checker not found')
